@@ -215,6 +215,26 @@ def ext_string_case(rng):
     return call + rng.choice(meth + [""]) + rng.choice(["", " == " + call])
 
 
+def ext_systematic():
+    """every single-character substitution / insertion / deletion of every valid extension string,
+       over a small alphabet that includes non-ASCII digits and multi-byte characters"""
+    out = []
+    alphabet = ["\u0663", "\uff13", "\U0001d7d1", "0", "9", ":", ".", "-", "+", "/", "Z", "T", "d", "m", "s", " ", "\u00e9"]
+    for fn, seeds in EXT_VALID.items():
+        for t in seeds:
+            variants = {t}
+            for i in range(len(t) + 1):
+                for a in alphabet:
+                    variants.add(t[:i] + a + t[i:])
+                    if i < len(t):
+                        variants.add(t[:i] + a + t[i + 1:])
+                if i < len(t):
+                    variants.add(t[:i] + t[i + 1:])
+            for v in sorted(variants):
+                out.append({"kind": "expr_text", "data": "%s(%s)" % (fn, cedar.str_lit(v))})
+    return out
+
+
 def nest(rng, kind):
     d = rng.randint(20, 48)
     if kind == "policy_text":
@@ -326,7 +346,10 @@ def run(rep, tier, seed):
     cpath = os.path.join(fw.VERIF, "corpus", "C20.jsonl")
     if os.path.exists(cpath):
         corpus = [json.loads(l) for l in open(cpath) if l.strip()]
-    cases = corpus + generate(rng, n)
+    extsys = ext_systematic()
+    if tier == "quick":
+        extsys = rng.sample(extsys, min(len(extsys), 6000))
+    cases = corpus + extsys + generate(rng, n)
     res = fw.run_rust(harness, [dict(c, cmd="pipeline") for c in cases])
     kinds, accepted, panics = {}, {}, 0
     distinct = set()
